@@ -145,7 +145,7 @@ def reopenStr (cfg : Cfg) (img : Image A) (acked : List Chain) (ops : List Op) (
 
 def resList (recs : List OpRec) : String := ".".intercalate (recs.map (fun r => resStr r.res))
 
-def handleImg (cfg : Cfg) (base : Image A) (ops : List Op) (k : Nat) : String :=
+def handleImg (cfg cfg2 : Cfg) (base : Image A) (ops : List Op) (k : Nat) : String :=
   match recover cfg base with
   | .error _ => "new:err"
   | .ok nd0 =>
@@ -153,9 +153,9 @@ def handleImg (cfg : Cfg) (base : Image A) (ops : List Op) (k : Nat) : String :=
     let n := fin.log.length
     if k > n then s!"n={n} out-of-range" else
     let img := replay base (fin.log.take k)
-    s!"n={n} res={resList recs} {persStr img} w={windowStr fin.log recs k} {reopenStr cfg img (ackedAt recs k) ops fin.tip}"
+    s!"n={n} res={resList recs} {persStr img} w={windowStr fin.log recs k} {reopenStr cfg2 img (ackedAt recs k) ops fin.tip}"
 
-def handleImg2 (cfg : Cfg) (base : Image A) (ops : List Op) (k j : Nat) : String :=
+def handleImg2 (cfg cfg2 cfg3 : Cfg) (base : Image A) (ops : List Op) (k j : Nat) : String :=
   match recover cfg base with
   | .error _ => "new:err"
   | .ok nd0 =>
@@ -163,15 +163,15 @@ def handleImg2 (cfg : Cfg) (base : Image A) (ops : List Op) (k j : Nat) : String
     let n := fin.log.length
     if k > n then s!"n={n} out-of-range" else
     let img := replay base (fin.log.take k)
-    match recover cfg img with
+    match recover cfg2 img with
     | .error _ => s!"n={n} r1=new:err"
     | .ok rn =>
-      let (fin2, recs2) := runRec cfg (ops.filter isDeliver) rn []
+      let (fin2, recs2) := runRec cfg2 (ops.filter isDeliver) rn []
       let n2 := fin2.log.length
       if j > n2 then s!"n={n} n2={n2} out-of-range" else
       let img2 := replay img (fin2.log.take j)
       let acked := ackedAt recs k ++ ackedAt recs2 j
-      s!"n={n} n2={n2} res2={resList recs2} {persStr img2} w1={windowStr fin.log recs k} w={windowStr fin2.log recs2 j} {reopenStr cfg img2 acked ops fin.tip}"
+      s!"n={n} n2={n2} res2={resList recs2} {persStr img2} w1={windowStr fin.log recs k} w={windowStr fin2.log recs2 j} {reopenStr cfg3 img2 acked ops fin.tip}"
 
 def parsePrune (s : String) : Option (Option (Nat × Nat)) :=
   if s == "0" then some none else
@@ -182,29 +182,41 @@ def parsePrune (s : String) : Option (Option (Nat × Nat)) :=
     if b == 0 || a < b then none else some (some (a, b))
   | _ => none
 
-def setup (cache prune blocks ops : String) : Option (Cfg × Image A × List Op) := do
-  let ca ← (if cache == "0" then some true else if cache == "1" then some false else none)
+def parseCache1 (s : String) : Option Bool :=
+  if s == "0" then some true else if s == "1" then some false else none
+
+/-- `a | a>b | a>b>c`: cache of the first, second, third process life. -/
+def parseCache (s : String) : Option (Bool × Bool × Bool) :=
+  match s.splitOn ">" with
+  | [a] => do let a ← parseCache1 a; pure (a, a, a)
+  | [a, b] => do let a ← parseCache1 a; let b ← parseCache1 b; pure (a, b, b)
+  | [a, b, c] => do let a ← parseCache1 a; let b ← parseCache1 b; let c ← parseCache1 c; pure (a, b, c)
+  | _ => none
+
+def setup (cache prune blocks ops : String) : Option ((Cfg × Cfg × Cfg) × Image A × List Op) := do
+  let (c1, c2, c3) ← parseCache cache
   let pr ← parsePrune prune
   let t ← parseBlocks blocks
   let os ← parseOps t ops
   match pr with
-  | none => pure (⟨ca, none⟩, Image.empty A, os)
-  | some (target, fmax) => pure (⟨ca, some target⟩, { Image.empty A with fileMax := fmax }, os)
+  | none => pure ((⟨c1, none⟩, ⟨c2, none⟩, ⟨c3, none⟩), Image.empty A, os)
+  | some (target, fmax) =>
+    pure ((⟨c1, some target⟩, ⟨c2, some target⟩, ⟨c3, some target⟩), { Image.empty A with fileMax := fmax }, os)
 
 def handle : List String → String
   | ["img", cache, prune, blocks, ops, k] =>
     match setup cache prune blocks ops, k.toNat? with
-    | some (cfg, base, os), some k => if k == 0 then "malformed" else handleImg cfg base os k
+    | some ((cfg, cfg2, _), base, os), some k => if k == 0 then "malformed" else handleImg cfg cfg2 base os k
     | _, _ => "malformed"
   | ["torn", cache, prune, blocks, ops, k] =>
     -- a partial block record after the write cursor is cut off by the store on open: same answer
     match setup cache prune blocks ops, k.toNat? with
-    | some (cfg, base, os), some k => if k == 0 then "malformed" else handleImg cfg base os k
+    | some ((cfg, cfg2, _), base, os), some k => if k == 0 then "malformed" else handleImg cfg cfg2 base os k
     | _, _ => "malformed"
   | ["img2", cache, prune, blocks, ops, k, j] =>
     match setup cache prune blocks ops, k.toNat?, j.toNat? with
-    | some (cfg, base, os), some k, some j =>
-      if k == 0 || j == 0 then "malformed" else handleImg2 cfg base os k j
+    | some ((cfg, cfg2, cfg3), base, os), some k, some j =>
+      if k == 0 || j == 0 then "malformed" else handleImg2 cfg cfg2 cfg3 base os k j
     | _, _, _ => "malformed"
   | "img" :: _ => "malformed"
   | "torn" :: _ => "malformed"
